@@ -1164,7 +1164,7 @@ var c16SemElems = []c16SemElem{
 
 var c16SemCaps = []int{0, 1, 3}
 
-var c16SemScen = []string{"assign-stmt", "recv-expr", "ok-form", "forin", "blocked-recv-woken-by-close", "errors-try", "errors-top-send", "errors-top-close", "go-snapshot", "go-shared-entry", "go-generator"}
+var c16SemScen = []string{"assign-stmt", "recv-expr", "ok-form", "forin", "blocked-recv-woken-by-close", "errors-try", "errors-top-send", "errors-top-close", "go-snapshot", "go-shared-entry", "go-generator", "nil-messages", "go-shared-call-site"}
 
 func c16SemCount() int { return len(c16SemScen) * len(c16SemElems) * len(c16SemCaps) }
 
@@ -1327,6 +1327,51 @@ func c16Semantic(idx int) *c16Prog {
 				}
 			}
 		}
+	case "nil-messages":
+		// nil is a value like any other on an interface channel: it is delivered, it does
+		// not end a range and the two-value receive reports ok == true for it. (On typed
+		// channels the same program runs without the nils.)
+		items := []string{it(0), it(1), it(2), it(3)}
+		vals := []string{val(0), val(1), val(2), val(3)}
+		if el.decl == "interface" {
+			items = []string{it(0), "nil", it(1), "nil", "nil", it(2), it(3), "nil"}
+			vals = []string{val(0), "nil", val(1), "nil", "nil", val(2), val(3), "nil"}
+		}
+		feedAll := func(ch string) string {
+			var b strings.Builder
+			for _, x := range items {
+				fmt.Fprintf(&b, "%s <- %s; ", ch, x)
+			}
+			return b.String() + "close(" + ch + ")"
+		}
+		m.WriteString("d = make(chan interface)\n")
+		fmt.Fprintf(m, "go func() { %s }()\nfor x in c { report(\"range\", x) }\nreport(\"range-end\", 1)\n", feedAll("c"))
+		mk("c2")
+		fmt.Fprintf(m, "go func() { %s }()\nfor { v = \"keep\"; ok = \"unset\"\n v, ok = <-c2\n if !ok { break }\n report(\"two\", v) }\nreport(\"two-end\", 1)\n", feedAll("c2"))
+		mk("c3")
+		mk("c4")
+		fmt.Fprintf(m, "go func() { %s }()\ngo func() { for x in c3 { c4 <- x }; close(c4) }()\nfor x in c4 { report(\"piped\", x) }\nreport(\"piped-end\", 1)\n", feedAll("c3"))
+		g.expect("range", "nil-message:range", vals...)
+		g.expect("range-end", "closed-forin:no-end", "int64(1)")
+		g.expect("two", "nil-message:two-value-receive", vals...)
+		g.expect("two-end", "closed-forin:no-end", "int64(1)")
+		g.expect("piped", "nil-message:forwarded-range", vals...)
+		g.expect("piped-end", "closed-forin:no-end", "int64(1)")
+	case "go-shared-call-site":
+		// ONE piece of script code (one call site `op.f(x)`, `fs[i](x)`, `mk(k)(x)`) executed by
+		// several goroutines at once, each with its own callee: every goroutine calls its own
+		m.WriteString("d = make(chan interface, 64)\n" +
+			"mk = func(k) { return func(x) { return x * k } }\n" +
+			"func stage(op, fs, k) {\n" +
+			"  for j = 0; j < 150; j++ {\n" +
+			"    var r1 = op.f(j)\n    var r2 = fs[0](j)\n    var r3 = mk(k)(j)\n" +
+			"    if r1 != j * k || r2 != j * k || r3 != j * k { report(\"bad\", [k, j, r1, r2, r3]) }\n" +
+			"  }\n  d <- k\n}\n" +
+			"for rr = 0; rr < 6; rr++ {\n" +
+			"  for kk = 1; kk <= 8; kk++ { go stage({\"f\": mk(kk)}, [mk(kk)], kk) }\n" +
+			"  for kk = 1; kk <= 8; kk++ { <-d }\n}\nreport(\"done\", 1)\n")
+		g.expect("bad", "shared-call-site:callee-of-another-goroutine")
+		g.expect("done", "shared-call-site:not-finished", "int64(1)")
 	case "go-generator":
 		// a function starts a goroutine and returns (its channel) before the goroutine
 		// has run; the caller then only blocks in a top-level range
